@@ -82,6 +82,13 @@ def gen_system(rng, kind):
                     l_ref=1.0, compliance_form=False, name="spring")
         system.add(sp)
         desc.update(bars=n)
+    elif kind == "top_from_rest":      # one body with three different principal inertias on a spherical joint with an oblique lever, released from REST:
+        # the gyroscopic force vanishes (with its velocity derivative) at the initial state and matters as soon as the body tumbles
+        A = Exp_SO3(np.array([rng.uniform(-0.8, 0.8), rng.uniform(0.3, 1.0), rng.uniform(-0.8, 0.8)]))
+        lever = np.array([0.4, rng.uniform(0.15, 0.3), -rng.uniform(0.1, 0.25)])
+        rb = RigidBody(1.0, np.diag([0.11, 0.23, 0.31]), q0=np.concatenate([A @ lever, Spurrier(A)]), name="top")
+        system.add(rb, Spherical(system.origin, rb, r_OJ0=np.zeros(3), name="pivot"), Force(rb.mass * g, rb, name="weight"))
+        desc.update(released_from_rest=True)
     else:                              # point masses on rigid links (FixedDistance), a spring between the last one and the origin
         n = rng.choice([1, 2])
         prev, r_prev = system.origin, np.zeros(3)
@@ -98,6 +105,8 @@ def gen_system(rng, kind):
         system.assemble()
         # consistent random velocities: project a random u onto the null space of g_dot_u (mass-orthogonally)
         u = np.array([rng.uniform(-1.0, 1.0) for _ in range(system.nu)])
+        if kind == "top_from_rest":
+            u = np.zeros(system.nu)
         t0, q0 = system.t0, system.q0
         W = system.W_g(t0, q0).toarray()
         M = system.M(t0, q0).toarray()
@@ -191,7 +200,7 @@ def run(ctx):
         records.append(rec); wheres[rec["id"]] = where
 
     for si in range(nsys):
-        kind = ["bar_chain", "mass_chain"][si % 2]
+        kind = ["bar_chain", "mass_chain", "top_from_rest"][si % 3]
         try:
             system, desc = gen_system(rng, kind)
         except Exception as ex:
@@ -199,10 +208,12 @@ def run(ctx):
             ctx.notes.append(f"system {si} ({kind}) was not built: {type(ex).__name__}: {str(ex)[:100]}")
             continue
         dt = rng.choice([1e-2, 5e-3])
-        nsteps = 30
-        where = dict(system=si, desc=desc, dt=dt)
+        nsteps = 30 if kind != "top_from_rest" else 60
+        # every second system is run to a final time that is no multiple of the step (the uniform grid then ends after it: the same number of steps)
+        T_run = nsteps * dt if si % 2 == 0 else (nsteps - 0.37) * dt
+        where = dict(system=si, desc=desc, dt=dt, t1=T_run)
         # (1) the stage equations, step by step
-        mk = (lambda sysm=system: Rattle(sysm, nsteps * dt, dt, options=_opts()))
+        mk = (lambda sysm=system: Rattle(sysm, sysm.t0 + T_run, dt, options=_opts()))
         with warnings.catch_warnings():
             warnings.simplefilter("ignore")
             rr = runs.record_run(mk, system, "Rattle", False, nsteps)
@@ -223,7 +234,7 @@ def run(ctx):
             with warnings.catch_warnings(), _quiet():
                 warnings.simplefilter("ignore")
                 back.set_new_initial_state(np.asarray(sol.q[-1]).copy(), -np.asarray(sol.u[-1]).copy(), t0=float(sol.t[-1]))
-            solb = rattle(back, float(sol.t[-1]) + nsteps * dt, dt)
+            solb = rattle(back, float(sol.t[-1]) + T_run, dt)
             dq = float(np.max(np.abs(np.asarray(solb.q[-1]) - np.asarray(sol.q[0]))))
             # a quaternion and its negative are the same orientation
             for b in quat_blocks(system):
